@@ -381,6 +381,28 @@ def gen_yaml_text_probe(rng):
             "dims": [F(1), F(100)], "note": "yaml-text", "cand": None}
 
 
+def gen_long_text_probe(rng):
+    """a netlist given as YAML text of more than 4096 characters (one module per line): near-duplicates differ far
+    behind the beginning of the text"""
+    n = rng.choice([100, 130, 170])
+    lines, small = ["Modules:"], []
+    for i in range(n):
+        w, h = F(rng.randrange(4, 60), 4), F(rng.randrange(4, 60), 4)
+        x0, y0 = F(rng.randrange(0, 400), 4), F(rng.randrange(0, 400), 4)
+        if rng.random() < 0.3:
+            lines.append(f"  H{i:03d}: {{area: {fl(w * h)!r}}}")
+            small.append(F(math.sqrt(fl(w * h))))
+        else:
+            lines.append(f"  H{i:03d}: {{rectangles: [[{fl(x0 + w / 2)!r}, {fl(y0 + h / 2)!r}, {fl(w)!r}, {fl(h)!r}]], "
+                         f"hard: true}}")
+            small += [w, h]
+    nets = [f"[H{rng.randrange(n):03d}, H{rng.randrange(n):03d}, {rng.randrange(1, 9)}]" for _ in range(6)]
+    lines.append("Nets: [" + ", ".join(nets) + "]")
+    txt = "\n".join(lines) + "\n"
+    return {"op": {"k": "netlist", "text": txt}, "kind": "netlist", "stream": "decimal", "variant": None,
+            "dims": [min(small), max(small)], "note": "long-text", "cand": None}
+
+
 def gen_sat(rng):
     c = c07.gen_case(rng)
     probe = {"op": {"k": "sat", "posts": c["posts"], "solve": rng.random() < 0.3}, "kind": "sat", "stream": "logic",
@@ -625,7 +647,8 @@ def admissible(p, h):
 # and a few unrelated operations in between
 # --------------------------------------------------------------------------
 REL_KINDS = ["die-grid", "die", "alloc", "stog", "netlist", "sat", "die-grid", "die", "legal", "alloc", "strop",
-             "netlist", "stog", "sat", "die-grid", "defaults", "die", "netlist-simple"]
+             "netlist", "stog", "sat", "die-grid", "defaults", "die", "netlist-simple", "die-grid-large",
+             "netlist-long"]
 
 
 # near-duplicates of a die are probed only while the grid of cut coordinates stays small: the cost of evaluating the
@@ -674,15 +697,15 @@ def installer_rule_ok(hist):
 def gen_related_group(rng, kind):
     """one history made of near-duplicates of the probed designs; the probe and some of its near-duplicates are each
     executed (in their own fork) at its end, so every probed design has itself and its neighbours in the history"""
-    if kind == "die-grid":
+    if kind in ("die-grid", "die-grid-large"):
         base = pow2(rng.choice([-6, -3, 0, 0, 0, 2, 5, 9]))
-        fam = [strip(m) for m in rel.die_grid_family(rng, base)]
+        fam = [strip(m) for m in rel.die_grid_family(rng, base, large=kind == "die-grid-large")]
         lead = fam[0]
         probes = [fam[0]] + rng.sample(fam[1:], min(3, len(fam) - 1))
         chosen = list(fam)
         chosen += [copy_of(m) for m in probes if rng.random() < 0.5]              # executed twice
     else:
-        pk = {"netlist-simple": "netlist"}.get(kind, kind)
+        pk = {"netlist-simple": "netlist", "netlist-long": "netlist"}.get(kind, kind)
         p, base = gen_probe(rng, kind=pk)
         for _ in range(20):
             if pk != "die" or rel.die_cells(p) <= MAX_REL_CELLS:
@@ -692,6 +715,8 @@ def gen_related_group(rng, kind):
             base = pow2(rng.choice([-6, -3, 0, 0, 2, 5]))
             p = gen_netlist_hist(rng, base)
             p["variant"] = None
+        if kind == "netlist-long":
+            p, base = gen_long_text_probe(rng), F(1)
         lead = strip(p)
         fam = [strip(m) for m in rel.relatives(rng, lead)]
         selfs = [m for m in fam if m["note"] == "rel:self"]
